@@ -44,8 +44,16 @@ FOLDING = ("ODL", "PDS3", "ISIS", "OMNI")
 _SETS = {}
 
 
+SETS = tuple(impl.DIALECTS) + ("ISISdef",)     # ISISdef: ISISEncoder()'s own default pairing
+
+
 def sets_for(d):
     if d not in _SETS:
+        if d == "ISISdef":
+            g = impl.ISISGrammar()
+            dec = impl.PVLDecoder(grammar=g)
+            _SETS[d] = (g, dec, impl.ISISEncoder())
+            return _SETS[d]
         g, dec = impl.make_grammar_decoder(d)
         if d == "OMNI":
             enc = impl.PVLEncoder(grammar=g, decoder=dec)     # the pairing pvl_validate uses
@@ -246,7 +254,7 @@ def words_for(quick):
 def run(ctx):
     W = words_for(ctx.quick)
     nshard = 48 if ctx.quick else 400
-    fwd = tuple(impl.DIALECTS)
+    fwd = SETS
     orders = [fwd, tuple(reversed(fwd))]
     specs = [(o, W[i::nshard]) for o in orders for i in range(nshard)]
     import multiprocessing
@@ -258,8 +266,8 @@ def run(ctx):
             acc.merge(r)
     cov = {
         "evaluations": acc.n, "distinct_nontrivial": acc.nontrivial,
-        "rule": "%d texts (every string of length <= %s over %r%s, plus %d curated borderline texts) x 5 "
-                "grammar/decoder/encoder sets, in both dialect orders, each shard in a fresh process; per text: decoder cascade, 16 token predicates, encoder.encode_string "
+        "rule": "%d texts (every string of length <= %s over %r%s, plus %d curated borderline texts) x 6 "
+                "grammar/decoder/encoder sets (the five configurations plus ISISEncoder's own default pairing), in both dialect orders, each shard in a fresh process; per text: decoder cascade, 16 token predicates, encoder.encode_string "
                 "and re-decoding of what it wrote; non-trivial = all consistency conditions evaluated and satisfied"
                 % (len(W), "3" if ctx.quick else "4", ALPHA14 if ctx.quick else ALPHA23,
                    " and <= 2 over the 23-character alphabet" if ctx.quick else "", len(CURATED)),
